@@ -99,6 +99,25 @@ TrJoin == /\ HasEvent("Join")
                   self_pair |-> ~E.raised /\ ~inp.two /\ \E x \in 1..Len(ret) : ret[x][1] = ret[x][2]
                 ]))
 
+\* ---- kdtree with max_returns = m (C11): per query min(m, #true) neighbours, all true with exact
+\*      distances, and no omitted neighbour strictly closer than a reported one
+TrJoinLimited ==
+    /\ HasEvent("JoinLimited")
+    /\ KdFilter
+    /\ LET ret == E.ret
+           m == E.limit
+           rset == { <<ret[x][1], ret[x][2], ret[x][3]>> : x \in 1..Len(ret) }
+           Of(T, q) == { t \in T : t[1] = q }
+       IN Consume(Named([
+            raised |-> E.raised,
+            repeated |-> ~E.raised /\ Len(ret) # Cardinality(PairsOf(ret)),
+            limit_not_true_neighbour |-> ~E.raised /\ ~(rset \subseteq trip'),
+            limit_size |-> ~E.raised /\ \E q \in 1..Len(inp.seqs) :
+                              Cardinality(Of(rset, q)) # Min2(m, Cardinality(Of(trip', q))),
+            limit_not_closest |-> ~E.raised /\ \E q \in 1..Len(inp.seqs) :
+                              \E x \in Of(trip', q) \ rset : \E y \in Of(rset, q) : x[3] < y[3]
+          ]))
+
 \* ---- output formatting
 TrOutput == /\ HasEvent("Output")
             /\ MakeOutput
@@ -115,7 +134,7 @@ TrNewLookup == /\ HasEvent("NewLookup")
                /\ NewLookup(E.seqs2)
                /\ Consume(Named([db_mutated |-> E.db_changed]))
 
-TraceNext == TrCheckInput \/ TrSdBuildSilent \/ TrBuild \/ TrJoin \/ TrOutput \/ TrNewLookup
+TraceNext == TrCheckInput \/ TrSdBuildSilent \/ TrBuild \/ TrJoin \/ TrJoinLimited \/ TrOutput \/ TrNewLookup
 
 TraceSpec == TraceInit /\ [][TraceNext]_<<vars, tvars>>
 
